@@ -54,10 +54,11 @@ Definition ao_model {Ob} (sstep : Ob -> nat -> op -> option (Ob * nat)) (o0 : Ob
 
 (* primitive numbers >= 100: the same primitive run WITHOUT a forced schedule (all goroutines run
    freely with seeded yields).  The interleaving is then unknown, so there is nothing to replay:
-   model_ok only requires a result for every scripted call; the history is checked by spec_ok. *)
+   model_ok only checks the shape of the observation (a goroutine may legitimately stay blocked, e.g. on a
+   pool whose slots were used up by panicking create callbacks); the history is checked by spec_ok. *)
 Definition free_ok (c : case) : bool :=
   Nat.eqb (List.length (c_results c)) (List.length (c_scripts c)) &&
-  forallb (fun t => Nat.eqb (List.length (nth t (c_results c) [])) (List.length (nth t (c_scripts c) []))) (threads_of c).
+  forallb (fun t => Nat.leb (List.length (nth t (c_results c) [])) (List.length (nth t (c_scripts c) []))) (threads_of c).
 
 Definition model_ok (c : case) : bool :=
   if Nat.leb 100 (c_prim c) then free_ok c else
@@ -67,7 +68,8 @@ Definition model_ok (c : case) : bool :=
   | 1 => let fin := replay LC.step LC.busy fuel (threads_of c) (c_sched c) (LC.init (scripts_of c)) in
          results_ok c (fun t => LC.t_res (LC.ts fin t)) && negb (LC.panicked fin)
   | 2 => ao_model (LIM.sstep (c_n c)) LIM.init c
-  | 3 => ao_model REF.sstep REF.init c
+  | 3 => let fin := replay REFL.step REFL.busy fuel (threads_of c) (c_sched c) (REFL.init (scripts_of c)) in
+         results_ok c (fun t => REFL.t_res (REFL.ts fin t))
   | 4 => ao_model ONCE.sstep ONCE.init c
   | 5 => ao_model SPIN.sstep SPIN.init c
   | 6 => ao_model DONE.sstep DONE.init c
